@@ -1010,6 +1010,20 @@ async def run_case(case, r: R):
     await KINDS[case['kind']](case, r)
 
 
-LEVEL_TEXT = 'tbd'
-LEVEL_NOTE = 'tbd'
-TECHNIQUE = 'runtime monitoring'
+LEVEL_TEXT = ('Stream equality at every DLC sink, an independent RFCOMM wire checker (own frame parser and CRC-8: FCS, length '
+              'indicator, credit ledger from the PN exchange and credit octets, information field against the peer N1 and '
+              'L2CAP MTU) over both devices of ~160 (quick) / ~3200 (thorough) generated transfers that walk all 49 N1 pairs, '
+              'all credit pairs 1..7 and the L2CAP MTU grid with 1-4 DLCs and up to 10^5 octets each way; DLC-table / state '
+              'agreement after every step of enumerated open / close / reopen / shutdown orders; initiate_slc against '
+              'AgProtocol for all 64 settings of the six feature bits it branches on x boundary lists, with the negotiated '
+              'values predicted from the configurations by the check; one-final-result-code monitor on the AG DLC during '
+              'every SLC and for ~130 hand-written command lines (every command, nominal / one more / one fewer / empty '
+              'parameters / pipelined / after a non-command line). Held = no refuting execution among those observed; '
+              'sampling, not proof.')
+LEVEL_NOTE = ('Trusted: vlib/ref_rfcomm.py (parser, CRC table checked against the SABM/UA frames every session starts with, '
+              'ledger), the HFP bit/indicator tables written in checks/c20.py, vlib/rig.py taps and ACL reassembler, the '
+              'virtual-time loop. No frame loss; only the initiator opens DLCs; the size bound is min(N1, L2CAP MTU-5) minus '
+              'one with a credit octet. The hfraw workload (scripted AG, unparseable unsolicited line) goes beyond the '
+              'literal quantifier of the statement and is kept because a wedged reader stops every later SLC.')
+TECHNIQUE = ('runtime monitoring: offline RFCOMM wire-log checker (frame parser + CRC + credit ledger) + stream equality + '
+             'two-ended state comparison + negotiated-state oracle + AT final-result-code monitor')
